@@ -235,13 +235,9 @@ PROPS = {
                 "the parsed URL the url-crate parse of the expanded text; expand_env_vars is compared with an independent scanner and the model; non-trivial = distinct URL slices accepted",
         "trusted": ["url::Url::parse and its Display"], "assumptions": [],
     },
-}
-
-# suites are ready, theorems still being proved: not claimed until then
-PENDING = {
     "C14": {
-        "lean_targets": ["Pep508.Model.Interner"],
-        "theorems": ["Pep508.C02.eval_and"],
+        "lean_targets": ["Pep508.Theorems.C14"],
+        "theorems": ["Pep508.C14.inv_init", "Pep508.C14.ids_canonical", "Pep508.C14.old_ids_stable", "Pep508.C14.and_refines", "Pep508.C14.or_refines", "Pep508.C14.create_node_refines", "Pep508.C14.cache_transparent", "Pep508.C14.same_id_later", "Pep508.C14.history_independent", "Pep508.C14.and_after_any_history", "Pep508.andF_fuel_irrelevant"],
         "suites": [{"name": "hist", "args": ["C14"]}],
         "rule": "(1) the id-level model (arena + unique table + AND cache + complemented edges) is run by the driver on pool operands after random warm-up contents of the arena and cache: "
                 "its result must denote Tree.and of the operands, equal the implementation's dump, be stable under a cache hit, under operand swap and in a fresh arena, and ids must be "
@@ -251,14 +247,18 @@ PENDING = {
         "trusted": ["FxHashMap / boxcar are assumed to be a correct map / append-only vector"], "assumptions": [],
     },
     "C15": {
-        "lean_targets": ["Pep508.Model.Interner"],
-        "theorems": ["Pep508.C02.eval_and"],
+        "lean_targets": ["Pep508.Theorems.C15"],
+        "theorems": ["Pep508.C15.schedule_inv", "Pep508.C15.step_result_independent_of_interleaving", "Pep508.C15.racing_threads_same_id", "Pep508.C14.and_refines", "Pep508.C14.ids_canonical"],
         "suites": [{"name": "hist", "args": ["C15"]}],
         "rule": "2, 8 and 16 threads released by a barrier execute the same script (parse, and, or, not, simplify_extras, render, DNF, ==, cmp, hash) on literals salted per run so that all "
                 "threads race to create the same NEW nodes; every thread's transcript must equal the others' and a sequential run in a fresh process; panics and a 60 s deadlock "
                 "watchdog are reported; non-trivial = (round, thread count) pairs",
         "trusted": ["memory ordering of the lock-free arena reads and deadlock-freedom of std::sync::Mutex are outside any executable model"], "assumptions": [],
     },
+}
+
+# suites are ready, theorems still being proved: not claimed until then
+PENDING = {
     "C19": {
         "lean_targets": ["Pep508.Model.ReqParse"],
         "theorems": ["Pep508.C06.marker_tree_never_panics"],
@@ -290,15 +290,20 @@ MANIFEST_TEXT = {
         "note": _NOTE + "partial: no Lean theorem yet states parse (show r) = r; external printers (pep440_rs, url) are trusted to re-parse to themselves.",
     },
     "C14": {
-        "technique": "Lean id-level interner model (arena, unique table, AND cache, complemented edges) refining the diagram model; executable cross-check on warmed arenas; fresh-process history oracle",
-        "text": "The interner is an explicit state machine whose andI is checked (executably, on every case) to denote Tree.and whatever the arena and cache already hold and to give canonical ids; "
-                "refinement theorems are added as proved (evidence lists them). Fresh-process histories compare every observable; version-spelling differences are the known finding K1.",
-        "note": _NOTE + "partial until the refinement theorem is in the theorem list; FxHashMap/boxcar trusted.",
+        "technique": "Lean 4 refinement proof: the id-level interner (append-only arena = unique table, AND memo cache, complemented edges, create_node normalisation) refines the "
+                     "diagram model under an invariant that holds initially and is preserved by every step; executable cross-check on warmed arenas; fresh-process history oracle",
+        "text": "andI_refines (a cache hit returns what recomputation would, whatever the arena holds), den_inj (ids canonical under any insertion order), den_mono (old ids stable), "
+                "andI_same_id, andI_history_independent, createNodeI_spec, internTree_spec. Every observable that is a function of diagrams is therefore history independent. The "
+                "driver runs the id-level model on warmed arenas for every case; fresh-process histories compare dumps, DNF, text, ==, cmp; spelling differences are K1.",
+        "note": _NOTE + "the id-level model's tie to the Rust interner is structural (read from the code) plus the history oracle: NodeIds are not observable; FxHashMap / boxcar are "
+                        "assumed to be a correct map / append-only vector; restrict/simplify/complexify at id level go through create_node only (create_node_refines).",
     },
     "C15": {
-        "technique": "atomic-step argument over the interner state machine (every mutating call holds the lock for its whole recursion: read from the code) + racing-threads oracle",
-        "text": "With each public mutating call one atomic step, any interleaving yields per-thread results equal to a sequential run (corollary of the C14 step theorems); threads racing to "
-                "create identical fresh nodes are compared with each other and with a sequential fresh process.",
+        "technique": "Lean 4 theorems over schedules of atomic interner steps (any interleaving): per-thread results equal the sequential ones, racing creations get the same id; "
+                     "racing-threads oracle with barrier release, fresh literals and a deadlock watchdog",
+        "text": "schedule_inv, step_result_independent_of_interleaving, racing_threads_same_id over arbitrary schedules (lists of steps by any threads), from the C14 refinement; that each "
+                "public mutating call is one atomic step (the mutex is held for the whole recursion) is read from the code, not proved. 2/8/16 threads racing on identical fresh nodes "
+                "are compared with each other and with a sequential fresh process.",
         "note": _NOTE + "partial by nature: memory ordering of lock-free reads, Mutex deadlock-freedom and the claim that the lock spans the whole recursion are outside the model.",
     },
     "C16": {
